@@ -24,6 +24,7 @@ import (
 type c18Script struct {
 	mu                            sync.Mutex
 	beginOK, commitOK, rollbackOK bool
+	beginBadConn                  bool // a failing Begin reports driver.ErrBadConn (database/sql retries it on fresh connections)
 	events                        []string
 }
 
@@ -45,6 +46,9 @@ func (c *c18Conn) Close() error { return nil }
 func (c *c18Conn) Begin() (driver.Tx, error) {
 	if !c.s.beginOK {
 		c.s.add("BEGINFAIL")
+		if c.s.beginBadConn {
+			return nil, driver.ErrBadConn
+		}
 		return nil, errors.New("begin-failed")
 	}
 	c.s.add("BEGIN")
@@ -152,8 +156,13 @@ var c18SharedCombined = func() []gormx.GormProcFn {
 }()
 
 func (d *c18DB) run(beginOK, commitOK, rollbackOK bool, steps []int, combined bool) (events []string, result string) {
+	return d.runB(beginOK, false, commitOK, rollbackOK, steps, combined)
+}
+
+func (d *c18DB) runB(beginOK, badConn, commitOK, rollbackOK bool, steps []int, combined bool) (events []string, result string) {
 	d.s.mu.Lock()
 	d.s.beginOK, d.s.commitOK, d.s.rollbackOK = beginOK, commitOK, rollbackOK
+	d.s.beginBadConn = badConn
 	d.s.events = nil
 	d.s.mu.Unlock()
 	db := d.db.WithContext(context.WithValue(context.Background(), c18KeyT{}, steps))
@@ -210,7 +219,10 @@ func (d *c18DB) run(beginOK, commitOK, rollbackOK bool, steps []int, combined bo
 // map observation to Coq terms; anything unexpected becomes an event/result the model never produces
 func c18CoqEvents(ev []string) string {
 	out := []string{}
-	for _, e := range ev {
+	for i, e := range ev {
+		if e == "BEGINFAIL" && i > 0 && ev[i-1] == "BEGINFAIL" {
+			continue // database/sql retries a bad connection: several driver-level attempts are one failed Begin
+		}
 		switch {
 		case e == "BEGIN":
 			out = append(out, "EBegin")
@@ -235,7 +247,7 @@ func c18CoqResult(r string) string {
 	switch {
 	case r == "nil":
 		return "RNil"
-	case r == "begin-failed":
+	case r == "begin-failed", r == driver.ErrBadConn.Error():
 		return "RBeginErr"
 	case r == "commit-failed":
 		return "RCommitErr"
@@ -320,6 +332,17 @@ func main() {
 		}
 		for n := 0; n <= maxSteps; n++ {
 			rec(nil, n)
+		}
+		// a Begin that keeps failing with driver.ErrBadConn (the server is gone): still a failure to begin
+		for n := 1; n <= maxSteps; n++ {
+			for _, comb := range []bool{false, true} {
+				for _, k := range []int{0, 1} {
+					st := make([]int, n)
+					st[n-1] = k
+					ev, res := d.runB(false, true, true, true, st, comb)
+					e.Emit(c18Case(comb, false, true, true, st, ev, res, "begin bad-conn", map[string]interface{}{"begin_error": "driver.ErrBadConn on every attempt"}))
+				}
+			}
 		}
 		// errors that wrap a context error (they are ordinary step failures), and a last step that ends the
 		// transaction itself: every position / prefix of ok steps up to maxSteps
